@@ -286,11 +286,11 @@ func absoluteLayout(context *layoutContext, placeholder *AbsolutePlaceholder, co
 	newBox, resumeAt := absoluteBoxLayout(context, box, containingBlock, fixedBoxes, bottomSpace, skipStack)
 	placeholder.setLaidOutBox(newBox)
 	if resumeAt != nil {
-		context.brokenOutOfFlow[placeholder] = brokenBox{
+		context.brokenOutOfFlow.set(placeholder, brokenBox{
 			box:             box,
 			containingBlock: containingBlock,
 			resumeAt:        resumeAt,
-		}
+		})
 	}
 }
 
